@@ -581,6 +581,7 @@ def check_std_casts(F, rep):
         if tr == "TryFrom":
             # &[T] -> &Colour: the std length check ([T] -> [T; N]), then the array cast
             want = ([direct], ["map", "try_into"])
+            std_calls = ["try_into" if x == "try_from" else x for x in std_calls]   # <&[T; N]>::try_from(slice) is the same std conversion
         elif raw == "slice":
             # Colour -> &[T]: unsizing of the array view
             want = ([], ["as_mut" if own == "mut" else "as_ref"])
